@@ -428,7 +428,18 @@ fn protocol_changes() -> SimResult {
             if sample.len() < 30 {
                 sample.push(format!("f{}={l:?}", k + 1));
             }
-            with_field(&a, k, |f| f.push(ToSwarm::NotifyHandler { peer_id: b.peer, handler: NotifyHandler::One(cid), event: HCmd::SetProtocols(l) }));
+            let cmd = match choose(4) {
+                0 => {
+                    probe("protocols-changed-inside-handler-poll");
+                    HCmd::SetProtocolsLater(l, true)
+                }
+                1 => {
+                    probe("protocols-changed-in-on-connection-event");
+                    HCmd::SetProtocolsLater(l, false)
+                }
+                _ => HCmd::SetProtocols(l),
+            };
+            with_field(&a, k, |f| f.push(ToSwarm::NotifyHandler { peer_id: b.peer, handler: NotifyHandler::One(cid), event: cmd }));
         } else {
             let add = choose(2) == 0;
             let n = 1 + choose(3);
@@ -458,9 +469,20 @@ fn protocol_changes() -> SimResult {
     Ok(())
 }
 
-fn check_protocol_fold(a: &Node<Composite>, cid: ConnectionId, lists: &[Vec<String>; 3], remote_model_unused: &BTreeSet<String>, step_no: usize) -> SimResult {
-    let expected_local: BTreeSet<String> = lists.iter().flatten().filter(|x| x.starts_with('/')).cloned().collect();
+fn check_protocol_fold(a: &Node<Composite>, cid: ConnectionId, _lists: &[Vec<String>; 3], remote_model_unused: &BTreeSet<String>, step_no: usize) -> SimResult {
     let log = a.log.lock().unwrap();
+    // what each field's handler advertises right now: its initial list, then every change it actually applied
+    // (in on_behaviour_event, inside poll, or in on_connection_event)
+    let mut current: [Vec<String>; 3] = [vec!["/probe/1".into()], vec!["/probe/2".into()], vec!["/probe/3".into()]];
+    for (_, h) in &log.hand {
+        if let HEv::ProtocolsApplied { tag, id, list } = h {
+            if *id == cid {
+                current[*tag as usize - 1] = list.clone();
+            }
+        }
+    }
+    let lists = &current;
+    let expected_local: BTreeSet<String> = lists.iter().flatten().filter(|x| x.starts_with('/')).cloned().collect();
     // the reports are folded in the order in which the handlers handed them to the connection
     let mut remote_model: BTreeSet<String> = BTreeSet::new();
     for (_, h) in &log.hand {
